@@ -24,6 +24,13 @@
 (*                "" for absolute paths), loc = path                       *)
 (* Every space has one scalar cells "c"; names in InvalidNames are not     *)
 (* identifiers.                                                            *)
+(* Values: 0 = a plain int, PVals = pandas objects, MVals = modules, and   *)
+(* MODELX OBJECTS of the same model (ids >= 100): 101 = space A, 102 =     *)
+(* cells A.c, 103 = space B, 104 = cells B.c.  A reference may be bound to *)
+(* them like to any value, but an Interface value is never registered in   *)
+(* _valid_to_refs (model.py ReferenceManager.new_ref / change_ref /        *)
+(* del_ref: `if not isinstance(value, Interface)`), and the derived copy   *)
+(* of a reference to A or A.c in B is bound RELATIVELY to B / B.c.         *)
 (***************************************************************************)
 EXTENDS MxIOSpecProps, SequencesExt, Json
 
@@ -34,6 +41,7 @@ CONSTANTS Models,      \* e.g. {"M1","M2"}
           ModLocs,     \* locations for new_module
           PVals,       \* ids of pandas values
           MVals,       \* ids of module values
+          OVals,       \* ids of modelx objects that assignments may bind (subset of 101..104)
           WithDelSpace,\* explore `del model.<space>`
           OpenFindings, \* KF labels of findings not repaired in the code: states reached through
                         \* their situation are judged and printed but not expanded
@@ -43,6 +51,13 @@ CONSTANTS Models,      \* e.g. {"M1","M2"}
 CellNames    == {"c"}
 InvalidNames == {"1x"}
 SpaceNames   == {"A", "B"}
+
+IsObj(v)   == v >= 100
+SpaceOf(v) == IF v \in {101, 102} THEN "A" ELSE "B"
+\* value of the copy that sub space B derives from a reference of A
+\* (refmode "auto": a target inside the defining space is re-bound relatively,
+\*  SpaceManager.get_relative_interface; anything else stays as it is)
+RelMap(v)  == CASE v = 101 -> 103 [] v = 102 -> 104 [] OTHER -> v
 
 VARIABLES S, P, lab, hist
 vars == <<S, P, lab, hist>>
@@ -97,7 +112,7 @@ Namespace(St, m, sp) ==
 Rederive(St, m, refs) ==
     LET keep == {r \in refs : ~(r.sp = "B" /\ r.d)} IN
     IF St.base[m] /\ {"A", "B"} \subseteq St.sp[m]
-    THEN keep \cup {[sp |-> "B", n |-> a.n, v |-> a.v, d |-> TRUE] :
+    THEN keep \cup {[sp |-> "B", n |-> a.n, v |-> RelMap(a.v), d |-> TRUE] :
                        a \in {a \in keep : a.sp = "A"
                                 /\ ~\E b \in keep : b.sp = "B" /\ b.n = a.n}}
     ELSE keep
@@ -110,26 +125,28 @@ Result(St, res) == [S |-> St, res |-> res]
 \*  space or a sub space is a conflict (none in this vocabulary: the cells is
 \*  "c", never used as a reference name here); a sub space that defines the
 \*  name keeps its own reference, the others get a derived copy;
-\*  then the defined reference is registered under its value.
+\*  then the defined reference is registered under its value -- unless the
+\*  value is a modelx object (`if not isinstance(value, Interface)`).
+Reg(v, sp, n) == IF IsObj(v) THEN {} ELSE {[v |-> v, sp |-> sp, n |-> n]}
 RmNewRef(St, m, sp, n, v) ==
     Result([St EXCEPT
             !.refs[m] = Rederive(St, m, @ \cup {[sp |-> sp, n |-> n, v |-> v, d |-> FALSE]}),
-            !.v2r[m]  = @ \cup {[v |-> v, sp |-> sp, n |-> n]}], "ok")
+            !.v2r[m]  = @ \cup Reg(v, sp, n)], "ok")
 
 \* ReferenceManager.change_ref, model.py:1990-2017
 \*  - remember the previous reference and its value;
 \*  - replace it (ModelImpl.change_ref = del + new, 959-961; SpaceManager.change_ref, 1529-1560:
 \*    the reference becomes a defined one, derived copies follow);
 \*  - register the NEW reference first (so that re-assigning the current
-\*    value keeps the registration non-empty);
+\*    value keeps the registration non-empty) -- not for a modelx object;
 \*  - un-register the previous reference object; if it was the LAST one of
-\*    its value, delete the value's spec (first found).
+\*    its value, delete the value's spec (first found).  A previous value
+\*    that is a modelx object has no entry (`refs is None`): nothing to do.
 RmChangeRef(St, m, sp, n, v) ==
     LET prev == CHOOSE r \in RefsAt(St, m, sp, n) : TRUE
-        new  == [v |-> v, sp |-> sp, n |-> n]
         S1 == [St EXCEPT !.refs[m] =
                   Rederive(St, m, (@ \ {prev}) \cup {[sp |-> sp, n |-> n, v |-> v, d |-> FALSE]}),
-                         !.v2r[m] = @ \cup {new}] IN
+                         !.v2r[m] = @ \cup Reg(v, sp, n)] IN
     IF prev.v = v THEN Result(S1, "ok")      \* old object out, new object in: same entry
     ELSE
     LET regp == {t \in S1.v2r[m] : t.v = prev.v}
@@ -159,7 +176,8 @@ SetAttr(St, m, sp, n, v) ==
 \*  1964-1975 un-register: `assert refs` / `refs.remove(ref)` raise when the
 \*            reference was never registered (a derived one, or one whose
 \*            registration was lost) -- AFTER the deletion;
-\*            last registered reference gone -> delete the value's spec.
+\*            last registered reference gone -> delete the value's spec;
+\*            a modelx object is not registered: the deletion just succeeds.
 RmDelRef(St, m, sp, n) ==
     IF RefsAt(St, m, sp, n) = {} THEN Result(St, "rejected")              \* KeyError
     ELSE
@@ -167,7 +185,8 @@ RmDelRef(St, m, sp, n) ==
         me  == [v |-> ref.v, sp |-> sp, n |-> n]
         S1  == [St EXCEPT !.refs[m] = Rederive(St, m, @ \ {ref})]
         reg == {t \in St.v2r[m] : t.v = ref.v} IN
-    IF ref.d \/ me \notin reg THEN Result(S1, "rejected")
+    IF IsObj(ref.v) THEN Result(S1, "ok")   \* not registered, nothing to un-register (a derived one: no net change)
+    ELSE IF ref.d \/ me \notin reg THEN Result(S1, "rejected")
     ELSE LET S2 == [S1 EXCEPT !.v2r[m] = @ \ {me}] IN
          IF reg = {me} /\ HasSpec(S2, m, ref.v)
          THEN Result(MgrDelSpec(S2, GetSpec(S2, m, ref.v)), "ok")
@@ -272,7 +291,7 @@ CloseStep(St, op) ==
 WriteReadInfo(St, m) ==
     [rt |-> {[v |-> x.v, loc |-> x.loc, exists |-> TRUE, eq |-> TRUE, src |-> <<x.v>>,
               rd |-> <<x.v>>, refs_ok |-> TRUE] : x \in SpecsOf(St, m)},
-     rspecs |-> {x.loc : x \in SpecsOf(St, m)}]
+     rspecs |-> {x.loc : x \in SpecsOf(St, m)}, orefs_ok |-> TRUE]
 
 Step(St, op) ==
     CASE op.op = "new_spec"    -> NewSpecStep(St, op)
@@ -285,6 +304,13 @@ Step(St, op) ==
       [] op.op = "close"       -> CloseStep(St, op)
       [] op.op = "write_read"  -> Result(St, "ok")
 
+\* mxsys._check_sanity(): ModelImpl._check_sanity (model.py:941-948) asserts
+\* that the value of every model-level reference is a modelx object or is
+\* registered in _valid_to_refs
+SanityOK(St) ==
+    \A m \in St.open : \A r \in St.refs[m] :
+        r.sp = "" => (IsObj(r.v) \/ \E t \in St.v2r[m] : t.v = r.v)
+
 \* what the recorder would project from S
 Obs(St, vals) ==
     [M |-> [m \in DOMAIN St.refs |->
@@ -294,7 +320,7 @@ Obs(St, vals) ==
                       THEN {[v |-> v, loc |-> GetSpec(St, m, v).loc] :
                                v \in {v \in vals : HasSpec(St, m, v)}}
                       ELSE {}]],
-     ios |-> St.mgr, sane |-> TRUE]
+     ios |-> St.mgr, sane |-> SanityOK(St)]
 
 -----------------------------------------------------------------------------
 (* The model: all histories over the vocabulary                            *)
@@ -321,14 +347,21 @@ OpsOf(St, m) ==
         sp \in Parents(St, m), n \in Names,
         \* (a module is only bound again where it has its spec: a model holding a
         \*  module without a spec cannot be saved, which is not C18's subject)
-        v \in {0} \cup PVals \cup (MVals \cap {x.v : x \in SpecsOf(St, m)})}
+        v \in {0} \cup PVals \cup (MVals \cap {x.v : x \in SpecsOf(St, m)})
+              \cup {o \in OVals : SpaceOf(o) \in St.sp[m]}}
     \cup {[op |-> "del_ref", m |-> m, sp |-> sp, n |-> n] : sp \in Parents(St, m), n \in Names}
     \cup {[op |-> "update", m |-> m, old |-> o, new |-> w] : o \in PVals, w \in PVals}
     \cup {[op |-> "update", m |-> m, old |-> o, new |-> w] :
         o \in {x.v : x \in SpecsOf(St, m)} \cap MVals, w \in FreshM(St)}
     \cup (IF St.base[m] THEN {[op |-> "remove_base", m |-> m]}
           ELSE IF SpaceNames \subseteq St.sp[m] THEN {[op |-> "add_base", m |-> m]} ELSE {})
-    \cup (IF WithDelSpace THEN {[op |-> "del_space", m |-> m, sp |-> sp] : sp \in St.sp[m]} ELSE {})
+    \* (a space is only deleted when no reference outside it points into it:
+    \*  dangling references are not C18's subject)
+    \cup (IF WithDelSpace
+          THEN {[op |-> "del_space", m |-> m, sp |-> sp] :
+                  sp \in {s \in St.sp[m] : ~\E r \in St.refs[m] :
+                                              IsObj(r.v) /\ SpaceOf(r.v) = s /\ r.sp # s}}
+          ELSE {})
     \cup {[op |-> "write_read", m |-> m], [op |-> "close", m |-> m]}
 
 Ops(St) == UNION {OpsOf(St, m) : m \in St.open}
